@@ -346,6 +346,115 @@ def decRest : Nat → St → Bits → Option (List Stored)
 def hdrOfByte (b : Nat) : Hdr :=
   if b / 64 % 4 = 1 then .notReset else if b / 64 % 4 = 2 then .reset else if b / 64 % 4 = 3 then .gauge else .unknown
 
+/-! ### floatHistogramIterator -/
+
+def readRawN : Nat → Bits → Option (List Nat × Bits)
+  | 0, bits => some ([], bits)
+  | n + 1, bits =>
+    match readBits 64 bits with
+    | none => none
+    | some (v, r) =>
+      match readRawN n r with
+      | none => none
+      | some (tl, r') => some (v :: tl, r')
+
+def decFirstF (numP numN : Nat) (bits : Bits) : Option (FSt × Bits) :=
+  match readVarbitInt bits with
+  | none => none
+  | some (t, r1) =>
+    match readBits 64 r1 with
+    | none => none
+    | some (cnt, r2) =>
+      match readBits 64 r2 with
+      | none => none
+      | some (zc, r3) =>
+        match readBits 64 r3 with
+        | none => none
+        | some (sum, r4) =>
+          match readRawN numP r4 with
+          | none => none
+          | some (pB, r5) =>
+            match readRawN numN r5 with
+            | none => none
+            | some (nB, r6) =>
+              some ({ t, tDelta := 0, cnt := ⟨cnt, 0, 0⟩, zcnt := ⟨zc, 0, 0⟩, sum := ⟨sum, 0, 0⟩,
+                      pB := pB.map fun v => ⟨v, 0, 0⟩, nB := nB.map fun v => ⟨v, 0, 0⟩ }, r6)
+
+/-- `readXor` into an `xorValue` -/
+def xvRead (x : XV) (bits : Bits) : Option (XV × Bits) :=
+  match Prom.ChunkXor.xorRead x.value x.leading x.trailing bits with
+  | none => none
+  | some (v, l, t, r) => some (⟨v, l, t⟩, r)
+
+def xvReadAll : List XV → Bits → Option (List XV × Bits)
+  | [], bits => some ([], bits)
+  | x :: xs, bits =>
+    match xvRead x bits with
+    | none => none
+    | some (x', r) =>
+      match xvReadAll xs r with
+      | none => none
+      | some (tl, r') => some (x' :: tl, r')
+
+def decNextF (d : FSt) (bits : Bits) : Option (FSt × Bits) :=
+  match readVarbitInt bits with
+  | none => none
+  | some (tDod, r1) =>
+    match xvRead d.cnt r1 with
+    | none => none
+    | some (cnt, r2) =>
+      match xvRead d.zcnt r2 with
+      | none => none
+      | some (zc, r3) =>
+        match xvRead d.sum r3 with
+        | none => none
+        | some (sum, r4) =>
+          let d1 : FSt := { d with tDelta := d.tDelta + tDod, t := d.t + (d.tDelta + tDod), cnt := cnt, zcnt := zc,
+                                   sum := sum }
+          if sum.value = staleBits then some (d1, r4)
+          else
+            match xvReadAll d.pB r4 with
+            | none => none
+            | some (pB, r5) =>
+              match xvReadAll d.nB r5 with
+              | none => none
+              | some (nB, r6) => some ({ d1 with pB := pB, nB := nB }, r6)
+
+/-- what `AtFloatHistogram` hands out -/
+def storedOfF (d : FSt) : Stored :=
+  if d.sum.value = staleBits then ⟨d.t, 0, 0, d.sum.value, [], []⟩
+  else ⟨d.t, d.cnt.value, d.zcnt.value, d.sum.value, d.pB.map fun x => (x.value : Int), d.nB.map fun x => (x.value : Int)⟩
+
+def decRestF : Nat → FSt → Bits → Option (List Stored)
+  | 0, _, _ => some []
+  | n + 1, d, bits =>
+    match decNextF d bits with
+    | none => none
+    | some (d', r) =>
+      match decRestF n d' r with
+      | none => none
+      | some tl => some (storedOfF d' :: tl)
+
+/-- decode the bytes of a float histogram chunk -/
+def decodeChunkF (bytes : List Nat) : Option Chunk :=
+  match bytes with
+  | hi :: lo :: hb :: rest =>
+    let num := hi * 256 + lo
+    if num = 0 then some { Chunk.empty true with hdr := hdrOfByte hb }
+    else
+      match readLayout (fromBytes rest) with
+      | none => none
+      | some (l, r1) =>
+        match decFirstF (countSpans l.pSpans) (countSpans l.nSpans) r1 with
+        | none => none
+        | some (d, r2) =>
+          match decRestF (num - 1) d r2 with
+          | none => none
+          | some tl =>
+            some { float := true, hdr := hdrOfByte hb, schema := l.schema, zt := l.zt, custom := l.custom,
+                   pSpans := l.pSpans, nSpans := l.nSpans, rev := (storedOfF d :: tl).reverse }
+  | _ => none
+
 /-- decode the bytes of an integer histogram chunk into a layout-level chunk -/
 def decodeChunk (bytes : List Nat) : Option Chunk :=
   match bytes with
